@@ -8,7 +8,7 @@ var Profiles = map[string]Profile{
 	// spec lab, routing shape: C01
 	"routes": {Name: "routes", MaxControllers: 4, MaxMethods: 8, MultiPkg: true, MultiFile: true, Hidden: true, Deprecated: true,
 		NonEndpoint: true, ParamIn: []string{"path", "query"}, ParamTypeLevel: 0, Models: 0, RouteStyle: "slashy", CtlRouteParams: true,
-		VerbPathReuse: true, Descriptions: true},
+		VerbPathReuse: true, Descriptions: true, BareControllers: true},
 	// spec lab, signatures: C06
 	"signatures": {Name: "signatures", MaxControllers: 3, MaxMethods: 6, MultiPkg: true, MultiFile: true, Hidden: true, Deprecated: true,
 		ParamIn: allIn, ParamTypeLevel: 2, Validators: true, Models: 1, CustomErrors: true, Responses: true, RouteStyle: "clean",
